@@ -13,12 +13,14 @@ import (
 	"sort"
 	"strconv"
 	"strings"
+	"testing/iotest"
 	"time"
 
 	"github.com/ohler55/ojg"
 	"github.com/ohler55/ojg/alt"
 	"github.com/ohler55/ojg/gen"
 	"github.com/ohler55/ojg/oj"
+	"github.com/ohler55/ojg/pretty"
 	"github.com/ohler55/ojg/sen"
 
 	"verif/internal/core"
@@ -635,8 +637,62 @@ func locateWrite(writer string, t any, opt, depth int) (kind string, d int) {
 	return kindOf(t), depth
 }
 
-func writeFindings(c *core.Ctx, t any) []finding {
+// prettyBoth writes the simple and the gen form with the pretty writer.
+func prettyBoth(senForm bool, t any, width, maxDepth int) (sText, gText string, pan any) {
+	defer func() {
+		if r := recover(); r != nil {
+			pan = r
+		}
+	}()
+	g := nodeAny(toGen(t))
+	w := pretty.Writer{Options: ojg.Options{Sort: true}, Width: width, MaxDepth: maxDepth, SEN: senForm}
+	sText = string(w.Encode(t))
+	gText = string(w.Encode(g))
+	return
+}
+
+// prettyFindings: the pretty writer decides line breaks from the widths it
+// computes for the nodes, separately for simple and gen nodes. Every width
+// within 8 columns of the flat width of the tree (where a miscounted node
+// tips the decision) and three depths are tried.
+func prettyFindings(c *core.Ctx, t any) []finding {
 	var out []finding
+	if k := kindOf(t); k != "array" && k != "object" {
+		return nil
+	}
+	flat := len(oj.JSON(t, &ojg.Options{Sort: true}))
+	for _, senForm := range []bool{false, true} {
+		name := "pretty.JSON"
+		if senForm {
+			name = "pretty.SEN"
+		}
+	sweep:
+		for width := flat - 8; width <= flat+8; width++ {
+			if width < 1 {
+				continue
+			}
+			for _, md := range []int{1, 2, 3} {
+				s, g, pan := prettyBoth(senForm, t, width, md)
+				if c != nil {
+					c.Add("evaluations", 2)
+				}
+				switch {
+				case pan != nil:
+					out = append(out, finding{op: "write:" + name, kind: kindOf(t), class: "panic:" + panicKind(pan), exp: "no panic", obs: fmt.Sprint(pan)})
+				case s != g:
+					out = append(out, finding{op: "write:" + name, kind: kindOf(t), class: "text-differs", exp: fmt.Sprintf("simple form (Width %d MaxDepth %d): %s", width, md, s), obs: "gen form: " + g})
+				default:
+					continue
+				}
+				break sweep
+			}
+		}
+	}
+	return out
+}
+
+func writeFindings(c *core.Ctx, t any) []finding {
+	out := prettyFindings(c, t)
 	for _, w := range []string{"oj.JSON", "sen.String"} {
 		for o := 0; o < nWriteOpts; o++ {
 			s, g, pan := writeBoth(w, t, o)
@@ -812,6 +868,35 @@ func parseFindings(c *core.Ctx, t any) []finding {
 	if m := compareGen(g, want, 0); m != nil {
 		return []finding{{op: "parse-eq", kind: m.kind, depth: m.depth, class: m.class,
 			exp: "Generify(oj.Parser.Parse(" + text + ")) = " + dump(want), obs: "gen.Parser.Parse = " + dump(g)}}
+	}
+	// the reader entry point, one byte per read (every token meets a buffer end)
+	var rn any
+	var rErr error
+	rp := func() (p any) {
+		defer func() { p = recover() }()
+		var gp gen.Parser
+		n, e := gp.ParseReader(iotest.OneByteReader(strings.NewReader(text)))
+		rn, rErr = nodeAny(n), e
+		// the same entry point on the oj side (whole-buffer and reader parsing of
+		// oj disagree on a few int64 literals: a C02 / C03 finding, not this property's)
+		var op oj.Parser
+		if v, e2 := op.ParseReader(iotest.OneByteReader(strings.NewReader(text))); e2 == nil {
+			want = nodeAny(alt.Generify(v, keep))
+		}
+		return nil
+	}()
+	if c != nil {
+		c.Add("evaluations", 1)
+	}
+	switch {
+	case rp != nil:
+		return []finding{{op: "parse-eq", kind: kindOf(t), class: "panic:" + panicKind(rp), exp: "no panic on " + text + " read byte by byte", obs: fmt.Sprint(rp)}}
+	case rErr != nil:
+		return []finding{{op: "parse-eq", kind: kindOf(t), class: "error-mismatch", exp: "oj.Parser on " + text + ": <nil>", obs: fmt.Sprintf("gen.Parser.ParseReader (1-byte reads): %v", rErr)}}
+	}
+	if m := compareGen(rn, want, 0); m != nil {
+		return []finding{{op: "parse-eq", kind: m.kind, depth: m.depth, class: m.class + ":reader",
+			exp: "Generify(oj.Parser.ParseReader(" + text + ")) = " + dump(want), obs: "gen.Parser.ParseReader (1-byte reads) = " + dump(rn)}}
 	}
 	return nil
 }
